@@ -13,7 +13,9 @@ A property module (props/cNN.py) exposes ``ID`` and ``plan(tier, seed) -> [units
 """
 import collections
 import fnmatch
+import functools
 import hashlib
+import inspect
 import json
 import math
 import multiprocessing as mp
@@ -103,7 +105,7 @@ class Recorder:
         name = getattr(f, '__qualname__', getattr(f, '__name__', repr(f)))
         hy = hygiene and HYGIENE
         if hy:
-            arrs = [v for v in list(a) + [v for kk, v in k.items() if kk not in OUT_ARGS] if isinstance(v, np.ndarray) and v.size]
+            arrs = _arrays_in(list(a) + [v for kk, v in k.items() if kk not in OUT_ARGS])
             snaps = [v.copy() for v in arrs]
             rng_state = np.random.get_state()
             prev = self._prev_out
@@ -129,8 +131,10 @@ class Recorder:
                 _set_precision(prec0)
             outs = _result_arrays(out)
             self._prev_out = (name, outs) if outs else None
-            if arrs and outs and '<lambda>' not in name and not any(kk in OUT_ARGS for kk in k):
-                key = (name, tuple((v.shape, str(v.dtype)) for v in arrs), tuple(sorted(k)))
+            plain = _is_plain(f, name)      # not a bound method / lambda: owns no caller-visible state
+            if outs and (arrs or plain) and not any(kk in OUT_ARGS for kk in k):
+                key = (name, id(getattr(f, '__code__', f)), tuple((v.shape, str(v.dtype)) for v in arrs), tuple(sorted(k)),
+                       tuple(repr(v)[:40] for v in list(a) + list(k.values()) if not isinstance(v, np.ndarray)) if not arrs else ())
                 if key not in self._hy_seen:
                     self._hy_seen.add(key)
                     after = np.random.get_state()
@@ -146,18 +150,44 @@ class Recorder:
         self.evals += 1
         try:
             np.random.set_state(rng_state)
-            rep = _result_arrays(f(*[v.copy() if isinstance(v, np.ndarray) else v for v in a],
-                                   **{kk: (v.copy() if isinstance(v, np.ndarray) else v) for kk, v in k.items()}))
+            rep = _result_arrays(f(*[_map_arrays(v, np.copy) for v in a], **{kk: _map_arrays(v, np.copy) for kk, v in k.items()}))
         except Exception as e:   # noqa
             self.violation(f'{name}:hygiene:not-repeatable', f'{name} raised {type(e).__name__} when the identical call was repeated: {e}')
             return
         if not _close_lists(rep, ref):
             self.violation(f'{name}:hygiene:not-repeatable', f'{name} gives a different result when the identical call is repeated')
             return
+        # (e) a plain function's result belongs to the caller: scribbling on it must not change what the next identical call returns
+        if _is_plain(f, name):
+            outs = _result_arrays(out)
+            saved = [o.copy() for o in outs]
+            inputs_before = [_map_arrays(v, np.copy) for v in a]
+            kw_before = {kk: _map_arrays(v, np.copy) for kk, v in k.items()}
+            try:
+                touched = False
+                for o in outs:
+                    if o.flags.writeable and o.dtype.kind in 'fciu':
+                        o[...] = o * 0 + (7 if o.dtype.kind in 'iu' else 7.25)
+                        touched = True
+                if touched:
+                    self.evals += 1
+                    np.random.set_state(rng_state)
+                    again = _result_arrays(f(*inputs_before, **kw_before))
+                    if not _close_lists(again, ref):
+                        self.violation(f'{name}:hygiene:result-shared-with-internal-state',
+                                       f'after the caller wrote into the array returned by {name}, the next identical call returns the modified values (the result aliases a cache / module-level table)')
+            except Exception:   # noqa
+                pass
+            finally:
+                for o, sv in zip(outs, saved):
+                    try:
+                        o[...] = sv
+                    except Exception:   # noqa
+                        pass
         # Fortran-ordered copies of every >= 2-D array argument
-        if any(isinstance(v, np.ndarray) and v.ndim >= 2 and v.size > 1 for v in list(a) + list(k.values())):
-            fa = [np.asfortranarray(v) if isinstance(v, np.ndarray) and v.ndim >= 2 else v for v in a]
-            fk = {kk: (np.asfortranarray(v) if isinstance(v, np.ndarray) and v.ndim >= 2 else v) for kk, v in k.items()}
+        if any(v.ndim >= 2 and v.size > 1 for v in _arrays_in(list(a) + list(k.values()))):
+            fa = [_map_arrays(v, _fortran) for v in a]
+            fk = {kk: _map_arrays(v, _fortran) for kk, v in k.items()}
             self.evals += 1
             try:
                 np.random.set_state(rng_state)
@@ -167,14 +197,14 @@ class Recorder:
             except Exception as e:   # noqa
                 self.violation(f'{name}:hygiene:memory-layout', f'{name} raised {type(e).__name__} for Fortran-ordered array arguments: {e}')
         # same buffers, new content: an identity-keyed cache would answer for the old content
-        fl = [v for v in list(a) + list(k.values()) if isinstance(v, np.ndarray) and v.ndim >= 2 and v.dtype.kind in 'fc' and v.size > 1 and v.flags.writeable]
+        fl = [v for v in _arrays_in(list(a) + list(k.values())) if v.ndim >= 2 and v.dtype.kind in 'fc' and v.size > 1 and v.flags.writeable]
         if fl:
             orig = [v.copy() for v in fl]
             flipped = [np.ascontiguousarray(v[::-1, ...][..., ::-1]) for v in orig]
             if any(not _same_array(x, y) for x, y in zip(orig, flipped)):
                 try:
-                    fresh_a = [(_swap(v, fl, flipped)) for v in a]
-                    fresh_k = {kk: _swap(v, fl, flipped) for kk, v in k.items()}
+                    fresh_a = [_map_arrays(v, lambda z: _swap(z, fl, flipped)) for v in a]
+                    fresh_k = {kk: _map_arrays(v, lambda z: _swap(z, fl, flipped)) for kk, v in k.items()}
                     self.evals += 2
                     np.random.set_state(rng_state)
                     want = [o.copy() for o in _result_arrays(f(*fresh_a, **fresh_k))]
@@ -290,6 +320,39 @@ try:
 except Exception:   # noqa
     INPLACE_OK = set()
 OUT_ARGS = ('out', 'output', 'alphas', 'dst')     # keyword arguments documented as caller-supplied buffers the routine writes
+
+
+def _arrays_in(vals):
+    """ndarray arguments, including those one level down in list / tuple arguments (coefficient lists, mode lists)"""
+    out = []
+    for v in vals:
+        if isinstance(v, np.ndarray):
+            if v.size:
+                out.append(v)
+        elif isinstance(v, (list, tuple)):
+            out.extend(w for w in v if isinstance(w, np.ndarray) and w.size)
+    return out
+
+
+def _map_arrays(v, fn):
+    if isinstance(v, np.ndarray):
+        return fn(v)
+    if isinstance(v, list):
+        return [fn(w) if isinstance(w, np.ndarray) else w for w in v]
+    if isinstance(v, tuple):
+        return tuple(fn(w) if isinstance(w, np.ndarray) else w for w in v)
+    return v
+
+
+def _fortran(v):
+    return np.asfortranarray(v) if v.ndim >= 2 else v
+
+
+def _is_plain(f, name):
+    """a module-level function (possibly wrapped by functools.lru_cache / wraps), not a bound method, lambda or partial"""
+    if '<lambda>' in name or inspect.ismethod(f) or isinstance(f, functools.partial) or inspect.isclass(f):
+        return False
+    return inspect.isfunction(f) or inspect.isfunction(getattr(f, '__wrapped__', None))
 
 
 def _precision():
